@@ -65,6 +65,7 @@ class Firmware:
         self.processed_hook = None  # callable(fw, idx) after the reply block was queued
         self.nboots = 0
         self.nproc = 0
+        self.pending = 0          # scheduled but not yet executed _process / _emit_now timers
         self.drop_while_booting = bool(cfg.get("drop_while_booting", False))
         self.boot_done_at = 0.0
 
@@ -76,7 +77,8 @@ class Firmware:
         self.boot_done_at = self.k.now + self.boot_delay
         if self.greeting:
             for i, g in enumerate(self.greeting.split("\n")):
-                self.k.after(self.boot_delay + i * 1e-4, self._emit_now, g, None, False)
+                self.pending += 1
+                self.k.after(self.boot_delay + i * 1e-4, self._emit_later, g, None, False)
 
     def kill(self):
         self.dead = True
@@ -92,7 +94,12 @@ class Firmware:
         if t <= self.k.now:
             self._emit_now(text, answers, final)
         else:
-            self.k.at(t, self._emit_now, text, answers, final)
+            self.pending += 1
+            self.k.at(t, self._emit_later, text, answers, final)
+
+    def _emit_later(self, text, answers, final):
+        self.pending -= 1
+        self._emit_now(text, answers, final)
 
     def _emit_now(self, text, answers, final):
         if self.dead or self.port is None:
@@ -131,9 +138,11 @@ class Firmware:
             lat = self.draws.next("lat", 0.0)
             t = max(self.k.now, self.busy_until, self.boot_done_at) + lat
             self.busy_until = t
+            self.pending += 1
             self.k.at(t, self._process, idx, text)
 
     def _process(self, idx, text):
+        self.pending -= 1
         if self.dead:
             return
         self.nproc += 1
@@ -205,6 +214,7 @@ class Link:
         self.ntx = 0
         self.nnum = 0
         self.arrive_until = 0.0
+        self.inflight = 0
         self.last_fault_seq = 0
         self.tx = []  # dict(idx, nidx, seq, t, text, corrupted)
 
@@ -234,8 +244,13 @@ class Link:
         # the link is FIFO: a transmission never overtakes an earlier one
         t = max(self.arrive_until, self.k.now + self.draws.next("txd", 0.0))
         self.arrive_until = t
-        self.k.at(t, self.fw.on_bytes, sent, idx)
+        self.inflight += 1
+        self.k.at(t, self._arrive, sent, idx)
         return len(data)
+
+    def _arrive(self, sent, idx):
+        self.inflight -= 1
+        self.fw.on_bytes(sent, idx)
 
 
 def corrupt_line(data, c):
